@@ -548,8 +548,50 @@ Proof.
       * inversion H; subst. fin. rewrite apply_upd_cnt, apply_upd_term. cbn. destruct (tally (w_pods w)); reflexivity.
 Qed.
 
+(* the same for a sync that WROTE a status, without assuming that the cached status equals the API server's
+   (second audit N2: after a failed job-level kill the cached version is ahead and no delivery repairs that) *)
+Theorem sync_job_written_partition : forall w u w',
+  sync_job w u [] = (w', false, true) ->
+  v_pods w = w_pods w -> v_spec w = w_spec w ->
+  NoDup (map t_name (s_tasks (v_spec w))) -> NoDup (pod_ids (w_pods w)) -> owned (v_spec w) (w_pods w) ->
+  (st_cnt (w_st w'), st_term (w_st w')) = tally (w_pods w').
+Proof.
+  intros w u w' H Hfresh Hspec Hts Hnd Hown.
+  destruct (sync_counters_partition (v_spec w) (w_pods w) Hts Hnd Hown) as [Herr Hpart]. cbv zeta in Herr, Hpart.
+  unfold sync_job, sync_job_gen in H.
+  destruct (c_vdel (v_ctl w)) eqn:Edel.
+  { discriminate. }
+  destruct (c_queue (v_ctl w)); cbn [negb] in H; [|discriminate].
+  cbn [fails_status existsb andb] in H. rewrite andb_false_r in H.
+  destruct (phase_beq (st_phase (v_st w)) PhNone) eqn:Ei.
+  - (* first sync of a job without a phase: the initial status is written first *)
+    set (js := mkStatus PhPending _ _ _ _ _ _ _ _) in *.
+    rewrite pj7, pj6, pj5 in H. cbn [write v_pg v_pods w_pods v_spec] in H. rewrite <- Hspec, Hfresh in H.
+    destruct (pg_admitted (v_pg w)); cbn [negb] in H.
+    + set (a := sync_pods (v_spec w) (w_pods w) (w_pods w) []) in *. rewrite Herr in H.
+      match type of H with context [status_eq_dec ?x ?y] => destruct (status_eq_dec x y) as [Heq|Hne] end.
+      * inversion H; subst. fin. rewrite Heq, apply_upd_cnt, apply_upd_term. cbn. exact Hpart.
+      * inversion H; subst. fin. rewrite apply_upd_cnt, apply_upd_term. cbn. exact Hpart.
+    + match type of H with context [status_eq_dec ?x ?y] => destruct (status_eq_dec x y) as [Heq|Hne] end.
+      * inversion H; subst. fin. rewrite <- Heq. cbn [set_tscnil st_cnt st_term].
+        rewrite apply_upd_cnt, apply_upd_term. cbn. destruct (tally (w_pods w)); reflexivity.
+      * inversion H; subst. fin. rewrite apply_upd_cnt, apply_upd_term. cbn. destruct (tally (w_pods w)); reflexivity.
+  - rewrite pj7, pj6, pj5, Hfresh in H.
+    destruct (pg_admitted (v_pg w)); cbn [negb] in H.
+    + set (a := sync_pods (v_spec w) (w_pods w) (w_pods w) []) in *. rewrite Herr in H.
+      match type of H with context [status_eq_dec ?x ?y] => destruct (status_eq_dec x y) as [Heq|Hne] end.
+      * discriminate.
+      * inversion H; subst. fin. rewrite apply_upd_cnt, apply_upd_term. cbn. exact Hpart.
+    + match type of H with context [status_eq_dec ?x ?y] => destruct (status_eq_dec x y) as [Heq|Hne] end.
+      * discriminate.
+      * inversion H; subst. fin. rewrite apply_upd_cnt, apply_upd_term. cbn. destruct (tally (w_pods w)); reflexivity.
+Qed.
+
+
+(* the premise of the counters theorems.  The cached STATUS need not equal the API server's (it cannot, after a
+   failed job-level kill: the cached version is ahead until the next successful write) *)
 Definition fresh_all (w : world) : Prop :=
-  v_pods w = w_pods w /\ v_st w = w_st w /\ v_spec w = w_spec w /\
+  v_pods w = w_pods w /\ v_spec w = w_spec w /\
   NoDup (map t_name (s_tasks (v_spec w))) /\ NoDup (pod_ids (w_pods w)) /\ owned (v_spec w) (w_pods w).
 
 (* without injected faults an executed action fails only before anything is written *)
@@ -580,10 +622,10 @@ Theorem execute_counters_partition : forall w a r w' e wr,
   execute w a r [] = (w', e, wr) -> wr = true -> fresh_all w ->
   (st_cnt (w_st w'), st_term (w_st w')) = tally (w_pods w').
 Proof.
-  intros w a r w' e wr H Hwr (Hfresh & Hst & Hspec & Hts & Hnd & Hown).
+  intros w a r w' e wr H Hwr (Hfresh & Hspec & Hts & Hnd & Hown).
   pose proof (execute_nofault _ _ _ _ _ _ H Hwr) as He. subst e wr. unfold execute in H.
   destruct (exec (st_phase (v_st w)) a) as [[|rt|] u].
-  - apply (sync_job_counters_partition w u w' true H); auto.
+  - apply (sync_job_written_partition w u w' H); auto.
   - apply (kill_counters_partition w rt None u w' H Hfresh Hnd).
   - apply (kill_counters_partition w RNone _ u w' H Hfresh Hnd).
 Qed.
@@ -665,31 +707,35 @@ Qed.
    later writer holds a stale object and is refused.  An execution all of whose status updates are
    refused -- whatever (stale) view it started from, whatever it did to pods -- leaves the status on
    the API server exactly as it was. *)
+(* (second audit N1: the first version of this theorem assumed [forall n, fails_status F n = true], which
+   no finite fault list satisfies.)  An Execute makes at most two status updates, and the second only
+   after the first went through (initJobStatus of a job without a phase); so "every status update of the
+   execution is refused" is: the first one it attempts -- index 0 -- is refused. *)
 Theorem refused_status_writer : forall w a r F w' e wr,
-  execute w a r F = (w', e, wr) -> (forall n, fails_status F n = true) ->
+  execute w a r F = (w', e, wr) -> fails_status F 0 = true ->
   w_st w' = w_st w /\ wr = false.
 Proof.
-  intros w a r F w' e wr H HF. unfold execute in H.
+  intros w a r F w' e wr H H0. unfold execute in H.
   destruct (exec (st_phase (v_st w)) a) as [[|rt|] u].
   - unfold sync_job, sync_job_gen in H.
     destruct (c_vdel (v_ctl w)); [inversion H; auto|].
     destruct (c_queue (v_ctl w)); cbn [negb] in H; [|inversion H; auto].
-    rewrite !HF in H. rewrite andb_true_r in H.
+    rewrite H0 in H. rewrite andb_true_r in H.
     destruct (phase_beq (st_phase (v_st w)) PhNone); [inversion H; auto|].
-    cbv zeta in H.
+    cbv zeta in H. rewrite ?H0 in H.
     repeat match type of H with context [if ?c then _ else _] => destruct c end;
-      inversion H; subst; fin; auto.
+      inversion H; subst; cbn; autorewrite with proj; auto.
   - unfold kill_pods, kill_pods_gen in H. destruct (c_vdel (v_ctl w)); [inversion H; auto|].
-    destruct (kill_select _ _ _ _ _) as [kill term0]. rewrite HF in H.
+    destruct (kill_select _ _ _ _ _) as [kill term0]. rewrite H0 in H.
     destruct (any_fault F kill); inversion H; subst; cbn; auto.
   - unfold kill_pods, kill_pods_gen in H. destruct (c_vdel (v_ctl w)); [inversion H; auto|].
     destruct (target_of a r) as [t|t p|]; try (inversion H; auto; fail).
-    all: destruct (kill_select _ _ _ _ _) as [kill term0]; rewrite HF in H;
+    all: destruct (kill_select _ _ _ _ _) as [kill term0]; rewrite H0 in H;
       destruct (any_fault F kill); inversion H; subst; cbn; auto.
 Qed.
 
 Theorem refused_status_writer_req : forall w r F w' e wr,
-  step_req w r F = (w', e, wr) -> (forall n, fails_status F n = true) -> w_st w' = w_st w /\ wr = false.
+  step_req w r F = (w', e, wr) -> fails_status F 0 = true -> w_st w' = w_st w /\ wr = false.
 Proof.
   intros w r F w' e wr H HF. unfold step_req in H.
   set (w0 := with_delays w (clean_pod_delay (c_delay (v_ctl w)) r)) in *.
@@ -699,6 +745,23 @@ Proof.
   destruct (execute w0 a r F) as [[w1 e1] wr1] eqn:Hx.
   destruct (refused_status_writer _ _ _ _ _ _ _ Hx HF) as [A B].
   destruct (negb e1 && negb (is_internal_action a)); inversion H; subst; cbn; auto.
+Qed.
+
+(* non-vacuity: a Running job with a Running pod; a RestartJob command and a plain sync that has a
+   status to write, each with its status update refused: the pods are touched (the kill deletes the
+   pod), the API server's status is not *)
+Example refused_status_writer_example :
+  let sp := mkSpec [mkTask 1 1 (Some 1) [] None] 1 None 3 [] in
+  let w := init_world sp (mkStatus PhRunning 0 0 1 c0 0 [] false false) [mkPod 1 0 PRunning false false] (Some PgRunning) in
+  fails_status [FStatus 0] 0 = true /\
+  (exists w', step_req w (mkReq ECommandIssued (Some ARestartJob) None None 0 0 1) [FStatus 0] = (w', true, false) /\
+              w_st w' = w_st w /\ w_pods w' = [mkPod 1 0 PRunning true true]) /\
+  (exists w', step_req w (mkReq EOutOfSync None None None 0 0 1) [FStatus 0] = (w', true, false) /\ w_st w' = w_st w) /\
+  (exists w', step_req w (mkReq EOutOfSync None None None 0 0 1) [] = (w', false, true) /\ w_st w' <> w_st w).
+Proof.
+  cbv zeta. split; [reflexivity|]. split; [eexists; split; [vm_compute; reflexivity|split; reflexivity]|].
+  split; [eexists; split; [vm_compute; reflexivity|reflexivity]|].
+  eexists; split; [vm_compute; reflexivity|]. vm_compute. discriminate.
 Qed.
 
 (* ---------- the same with processNextReq's error path (requeue budget, give-up) ---------- *)
@@ -712,4 +775,56 @@ Proof.
   intros w r w' wr H Hwr Hfr.
   destruct (step_reqb_cases _ _ _ _ _ _ H) as [w1 q Hs ->|w1 wr1 w2 e2 wr2 q Hs Hx -> He _]; [|discriminate].
   exact (counters_partition _ _ _ _ _ Hs Hwr Hfr).
+Qed.
+
+(* ---------- where the premise [fresh_all] comes from (second audit N2 / N4) ---------- *)
+(* every initial world of a history with unique task names, unique pod names and no foreign pod *)
+Lemma fresh_all_init : forall m q sp st pods pg,
+  NoDup (map t_name (s_tasks sp)) -> NoDup (pod_ids pods) -> owned sp pods ->
+  fresh_all (init_world_m m q sp st pods pg).
+Proof. intros. repeat split; auto. Qed.
+
+(* ... and every world right after the informers delivered the job and the pods, whatever the controller's
+   views were before (stale, empty after a restart, cached version ahead after a failed kill), provided
+   the job object is delivered at all: it changed since the last delivery, or is not in the cache, or
+   the cached spec is the current one already *)
+Lemma fresh_all_after_deliveries : forall w,
+  NoDup (map t_name (s_tasks (w_spec w))) -> NoDup (pod_ids (w_pods w)) -> owned (w_spec w) (w_pods w) ->
+  c_dirty (v_ctl w) = true \/ c_job (v_ctl w) = false \/ v_spec w = w_spec w ->
+  fresh_all (run w [OSyncJob; OSyncPods]).
+Proof.
+  intros w Hts Hnd Hown Hd. unfold run. cbn [fold_left step].
+  destruct (c_job (v_ctl w) && negb (c_dirty (v_ctl w))) eqn:E; cbn [fst]; unfold fresh_all; cbn.
+  - apply andb_true_iff in E. destruct E as [E1 E2]. apply negb_true_iff in E2.
+    destruct Hd as [Hd|[Hd|Hd]]; try congruence. rewrite Hd. repeat split; auto.
+  - repeat split; auto.
+Qed.
+
+(* the two together with the step theorem: the first written, fault-free request after such a delivery *)
+Theorem counters_partition_after_deliveries : forall w r w' e wr,
+  NoDup (map t_name (s_tasks (w_spec w))) -> NoDup (pod_ids (w_pods w)) -> owned (w_spec w) (w_pods w) ->
+  c_dirty (v_ctl w) = true \/ c_job (v_ctl w) = false \/ v_spec w = w_spec w ->
+  step_req (run w [OSyncJob; OSyncPods]) r [] = (w', e, wr) -> wr = true ->
+  (st_cnt (w_st w'), st_term (w_st w')) = tally (w_pods w').
+Proof.
+  intros w r w' e wr Hts Hnd Hown Hd H Hwr.
+  exact (counters_partition _ _ _ _ _ H Hwr (fresh_all_after_deliveries w Hts Hnd Hown Hd)).
+Qed.
+
+(* the reviewer's state: a RestartJob whose pod deletion is refused leaves the cached version ahead of the
+   API server's; after the deliveries the cached status still differs, yet the premise holds and the
+   retried restart partitions *)
+Example fresh_all_version_ahead :
+  let sp := mkSpec [mkTask 1 2 (Some 2) [] None] 2 None 3 [] in
+  let w := init_world sp (mkStatus PhRunning 0 0 2 (mkC 0 2 0 0 0) 0 [] false false)
+             [mkPod 1 0 PRunning false false; mkPod 1 1 PRunning false false] (Some PgRunning) in
+  let rq := mkReq ECommandIssued (Some ARestartJob) None None 0 0 1 in
+  let w1 := run w [OReq rq [FDelete 1 0]; OSyncJob; OSyncPods; OSyncPg] in
+  v_st w1 <> w_st w1 /\ fresh_all w1 /\
+  exists w2, step_req w1 rq [] = (w2, false, true) /\ (st_cnt (w_st w2), st_term (w_st w2)) = tally (w_pods w2).
+Proof.
+  cbv zeta. split; [vm_compute; discriminate|]. split.
+  - unfold fresh_all. vm_compute. repeat split; auto; try (repeat constructor; cbn; intuition discriminate).
+    intros p [<-|[<-|[]]]; eexists; (split; [left; reflexivity|reflexivity]).
+  - eexists. split; vm_compute; reflexivity.
 Qed.
